@@ -104,8 +104,13 @@ mpn_divexact (mp_ptr qp,
   } else
   {
     /* determine if the quotient is even */
-    count_trailing_zeros (shift2, np[0]);
-    q_even = ((np[0] == 0) || (shift2 > shift)) ? 1 : 0; 
+    if (np[0] == 0)
+      q_even = 1;	/* count_trailing_zeros is not defined for 0 */
+    else
+      {
+        count_trailing_zeros (shift2, np[0]);
+        q_even = (shift2 > shift) ? 1 : 0;
+      }
 
     if (dp[dn - 1] & GMP_LIMB_HIGHBIT)
     {
